@@ -16,10 +16,14 @@ VARIABLE c
 tvars == <<c, reg, hist, outs>>
 
 RECURSIVE Canon(_)
-Canon(tv) == IF tv.g \in {"ptr", "iface"} THEN [tv EXCEPT !.a = [i \in 1..Len(tv.a) |-> Canon(tv.a[i])]]
+\* a struct held by value in an interface comes back as a pointer to the struct (the recomposer builds values with
+\* reflect.New): the pointer directly under an interface is disregarded
+Canon(tv) == IF tv.g = "iface" /\ ~tv.nil /\ tv.a[1].g = "ptr" /\ ~tv.a[1].nil THEN [tv EXCEPT !.a = <<Canon(tv.a[1].a[1])>>]
+             ELSE IF tv.g \in {"ptr", "iface"} THEN [tv EXCEPT !.a = [i \in 1..Len(tv.a) |-> Canon(tv.a[i])]]
              ELSE IF tv.g \in {"slice", "map"} THEN [tv EXCEPT !.nil = FALSE, !.a = [i \in 1..Len(tv.a) |-> Canon(tv.a[i])]]
              ELSE IF tv.g = "array" THEN [tv EXCEPT !.a = [i \in 1..Len(tv.a) |-> Canon(tv.a[i])]]
              ELSE IF tv.g = "struct" THEN [tv EXCEPT !.f = [i \in 1..Len(tv.f) |-> [tv.f[i] EXCEPT !.v = Canon(tv.f[i].v)]]]
+             ELSE IF tv.g \in {"int", "uint8", "float"} THEN [g |-> "num", s |-> tv.s]     \* numeric widths may widen (int -> int64 / float64)
              ELSE tv
 Same(x, y) == Canon(x) = Canon(y)
 
